@@ -541,6 +541,17 @@ namespace pika::execution::experimental {
                 operation_state(operation_state const&) = delete;
                 operation_state& operator=(operation_state const&) = delete;
 
+                ~operation_state() noexcept
+                {
+                    // An operation state that is destroyed without having been started still
+                    // holds its place in the chain of accesses. Like an unused sender, acquire
+                    // and immediately release the access so that later accesses are granted.
+                    if (state)
+                    {
+                        pika::execution::experimental::start_detached(sender{std::move(state)});
+                    }
+                }
+
                 void continuation() noexcept override
                 {
                     try
@@ -736,6 +747,17 @@ namespace pika::execution::experimental {
                 operation_state& operator=(operation_state&&) = delete;
                 operation_state(operation_state const&) = delete;
                 operation_state& operator=(operation_state const&) = delete;
+
+                ~operation_state() noexcept
+                {
+                    // An operation state that is destroyed without having been started still
+                    // holds its place in the chain of accesses. Like an unused sender, acquire
+                    // and immediately release the access so that later accesses are granted.
+                    if (state)
+                    {
+                        pika::execution::experimental::start_detached(sender{std::move(state)});
+                    }
+                }
 
                 void continuation() noexcept override
                 {
